@@ -251,13 +251,13 @@ def obligations(tier):
     ]
     PA = ", ".join(n for n, _ in P)
     vpre = " and ".join(f"0 <= {x} <= 1" for x in ("a0", "a1", "a2", "b0", "b1", "b2"))
-    rids = ["R2", "R3", "R5", "R15"] + (["R1", "R7", "R9"] if thorough else [])
+    rids = ["R2", "R3", "R5", "R15"] + (["R7", "R9"] if thorough else [])
     ctypes = ["lru", "simple"] + (["hybrid", "disk"] if thorough else [])
     for rid in rids:
         t = R[rid]
         nf = len(t)
         nouts = len([o for fs in t for o in fs.outputs])
-        masks = [(1 << nf) - 1, 1 << (nf - 1)] if not thorough else list(range(1, 1 << nf))
+        masks = [(1 << nf) - 1, 1 << (nf - 1)] if not thorough else sorted({(1 << nf) - 1, 0b101 & ((1 << nf) - 1)} | {1 << k for k in range(nf)})
         for ct in ctypes:
             for mask in sorted(set(masks)):
                 for region in ("roots", "interior", "mutation"):
@@ -265,8 +265,12 @@ def obligations(tier):
                         continue
                     if not thorough and ct == "simple" and mask != (1 << nf) - 1:
                         continue
-                    pre = [(f"{nouts - 2} <= out_sel1 < {nouts}" if thorough else f"out_sel1 == {nouts - 1}") + " and out_sel2 == out_sel1", f"0 <= cut_sel1 <= {40 if thorough else 2} and 0 <= cut_sel2 <= {40 if thorough else 2}",
-                           "0 <= a0 <= 1 and " + ("0 <= a1 <= 1" if thorough else "a1 == 0") + " and b0 == 0 and a2 == 0 and b1 == 0 and b2 == 0",
+                    if thorough and region != "roots" and mask not in ((1 << nf) - 1, 1 << (nf - 1)):
+                        continue
+                    if thorough and ct in ("hybrid", "disk") and mask != (1 << nf) - 1:
+                        continue
+                    pre = [(f"{nouts - 2} <= out_sel1 < {nouts}" if thorough else f"out_sel1 == {nouts - 1}") + " and out_sel2 == out_sel1", f"0 <= cut_sel1 <= {3 if thorough else 2} and 0 <= cut_sel2 <= {3 if thorough else 2}",
+                           "0 <= a0 <= 1 and a1 == 0 and b0 == 0 and a2 == 0 and b1 == 0 and b2 == 0",
                            "0 <= newval <= 1" if region == "mutation" else "newval == 0", "not full1"]
                     if region == "roots":
                         pre += ["mut == 0"]
